@@ -151,7 +151,11 @@ func (s *SourceSplitter) Close() error {
 
 // Checkpoint returns a snapshot of the splitter's state for checkpointing.
 func (s *SourceSplitter) Checkpoint() []byte {
-	splits := s.splitTracker.AssignedSplits()
+	// All known shards are part of the state, not just the assigned ones: child
+	// shards waiting for their parents have IDs before the last assigned ID and
+	// would never be discovered again after a restore. Restored shards are loaded
+	// as unassigned either way.
+	splits := s.splitTracker.KnownSplits()
 	pbShards := make([]*kinesispb.SourceSplitterShard, len(splits))
 	for i, shard := range splits {
 		pbShards[i] = shard.toProto()
